@@ -777,6 +777,16 @@ fn process_incoming_text_message<T: Read + Write>(
                                                 command
                                             )))
                                             .unwrap(); // todo
+                                    } else if fc.collect_mode == CollectMode::OnePassStreams
+                                        && fc.drained_all_msgs > 0
+                                    {
+                                        // the msgs from the start are not available any longer
+                                        websocket
+                                            .write_message(Message::Text(format!(
+                                                "err: {} failed as with open option 'collect:'one_pass_streams'' {} msgs have been processed and removed already. Start all streams before 'resume'.",
+                                                command, fc.drained_all_msgs
+                                            )))
+                                            .unwrap(); // todo
                                     } else {
                                         websocket
                                             .write_message(Message::Text(format!(
